@@ -434,6 +434,15 @@ func (e *fnEnc) encodeBlock(b *ssa.BasicBlock) {
 		}
 		// havoc
 		if pi.pass == 1 || pi.loopMods[li.ord]["*"] != "" {
+			// stable cells the loop body itself does not store to keep their value
+			saved := e.saveStable(st, func(a *ssa.Alloc) bool {
+				for _, r := range *a.Referrers() {
+					if s, ok := r.(*ssa.Store); ok && li.body[s.Block()] {
+						return true
+					}
+				}
+				return false
+			})
 			pi.epoch++
 			old := st
 			st = &state{m: map[string]Term{}, alloc: st.alloc}
@@ -443,6 +452,7 @@ func (e *fnEnc) encodeBlock(b *ssa.BasicBlock) {
 				}
 			}
 			st.m["!epoch"] = T(SInt, fmt.Sprint(pi.epoch))
+			e.restoreStable(st, saved)
 		} else {
 			var comps []string
 			for c := range pi.loopMods[li.ord] {
@@ -645,9 +655,119 @@ func (e *fnEnc) heapGetEpoch(st *state, comp string, s Sort) Term {
 	return t
 }
 
+
+// stableCells: heap-allocated locals of non-struct type whose address is known
+// only to this function and to closures that merely read them. No callee can
+// modify such a cell, so its value survives the havoc of a call (a syntactic
+// fact about the code, not an assumption).
+func (e *fnEnc) stableCells() []*ssa.Alloc {
+	if e.stableDone {
+		return e.stable
+	}
+	e.stableDone = true
+	var readOnlyFV func(fv *ssa.FreeVar, depth int) bool
+	readOnlyFV = func(fv *ssa.FreeVar, depth int) bool {
+		if depth > 4 || fv.Referrers() == nil {
+			return false
+		}
+		for _, r := range *fv.Referrers() {
+			switch r := r.(type) {
+			case *ssa.UnOp:
+				if r.Op != token.MUL {
+					return false
+				}
+			case *ssa.DebugRef:
+			case *ssa.MakeClosure:
+				fn2 := r.Fn.(*ssa.Function)
+				for i, b := range r.Bindings {
+					if b == ssa.Value(fv) && !readOnlyFV(fn2.FreeVars[i], depth+1) {
+						return false
+					}
+				}
+			default:
+				return false
+			}
+		}
+		return true
+	}
+	for _, b := range e.fn.Blocks {
+		for _, in := range b.Instrs {
+			a, ok := in.(*ssa.Alloc)
+			if !ok || !a.Heap || a.Referrers() == nil {
+				continue
+			}
+			if isStructType(a.Type().(*types.Pointer).Elem()) {
+				continue
+			}
+			if _, isArr := types.Unalias(a.Type().(*types.Pointer).Elem()).Underlying().(*types.Array); isArr {
+				continue
+			}
+			ok = true
+			captured := false
+			for _, r := range *a.Referrers() {
+				switch r := r.(type) {
+				case *ssa.UnOp:
+					if r.Op != token.MUL {
+						ok = false
+					}
+				case *ssa.Store:
+					if r.Addr != ssa.Value(a) {
+						ok = false // the address itself is stored somewhere
+					}
+				case *ssa.DebugRef:
+				case *ssa.MakeClosure:
+					captured = true
+					fn2 := r.Fn.(*ssa.Function)
+					for i, bd := range r.Bindings {
+						if bd == ssa.Value(a) && !readOnlyFV(fn2.FreeVars[i], 0) {
+							ok = false
+						}
+					}
+				default:
+					ok = false
+				}
+			}
+			if ok && captured {
+				e.stable = append(e.stable, a)
+			}
+		}
+	}
+	return e.stable
+}
+
+// saveStable / restoreStable carry the stable cells across a full havoc.
+func (e *fnEnc) saveStable(st *state, skip func(*ssa.Alloc) bool) []stableVal {
+	var out []stableVal
+	for _, a := range e.stableCells() {
+		addr, ok := e.vals[a]
+		if !ok || (skip != nil && skip(a)) {
+			continue
+		}
+		srt := e.sortOf(a.Type().(*types.Pointer).Elem())
+		comp, cs := e.boxComp(srt)
+		out = append(out, stableVal{comp, cs, addr, sel(e.heapGet(st, comp, cs), addr, srt)})
+	}
+	return out
+}
+
+func (e *fnEnc) restoreStable(st *state, vs []stableVal) {
+	for _, v := range vs {
+		e.heapSet(st, v.comp, store(e.heapGet(st, v.comp, v.cs), v.addr, v.val))
+	}
+}
+
+type stableVal struct {
+	comp string
+	cs   Sort
+	addr Term
+	val  Term
+}
+
 // havocAll forgets everything about the heap.
 func (e *fnEnc) havocAll(st *state) {
 	pi := e.pi()
+	saved := e.saveStable(st, nil)
+	defer e.restoreStable(st, saved)
 	pi.epoch++
 	for k := range st.m {
 		if strings.HasPrefix(k, "Ghost.") {
